@@ -50,7 +50,7 @@ package source
 //@ assumed (source.DatasetContinuation).AsIncrToken
 //@   pure
 //@ unit (*DatasetSource).ReadEntities
-//@   prop C08
+//@   prop C08 C10
 //@   ghost incrG bool = false
 //@   ghost contG int = 0
 //@   requires datasetSource != nil
@@ -60,6 +60,12 @@ package source
 //@     ghost contG := $result0
 //@   at call processEntities#1 before
 //@     assert [token-handed-on-is-the-one-the-read-returned] incrG ==> cont != nil && cont.Token == itoa(contG)
+// a proxy dataset is read through the remote change / entity feed: from the stored token, with the requested page size,
+// in the source's own mode and never in reverse
+//@   at call StreamChangesRaw#1 before
+//@     assert [C10,C08:the-remote-change-feed-is-read-forward-from-the-stored-token-in-the-sources-own-mode] $arg2 == batchSize && $arg3 == datasetSource.LatestOnly && !$arg4
+//@   at call StreamEntitiesRaw#1 before
+//@     assert [C10,C08:the-remote-listing-is-read-with-the-requested-page-size] $arg2 == batchSize
 
 // every member of the union is read with its own token: the continuation must have exactly one token per member, and the
 // union continuation reads as the token of the member that is active
